@@ -11,6 +11,7 @@ package main
 import (
 	"bytes"
 	"fmt"
+	"os"
 
 	"github.com/33cn/chain33/system/store/mavl/db/ticket"
 	"github.com/33cn/chain33/types"
@@ -162,8 +163,14 @@ func history(e *mavlh.Eng, r *gen.Rand) {
 	out.Stat("histories", 1)
 	out.Stat("main_steps", int64(len(script)))
 	ref := runVariant(e, r, kg, script, mavlh.Cfg{}, 0, false, nil)
+	// Re-creating the process-global memTree costs ~70 ms (NewTreeMap allocates a 500k-entry map; 75% of this
+	// harness's CPU time), so the quick tier runs a random quarter of the 16 memTree-on configurations per
+	// history (each of them several times per run); the 16 memTree-off configurations always run in full.
 	for c := 0; c < 32; c++ {
 		cfg := mavlh.CfgFromInt(c)
+		if cfg.MemTree && !gen.Thorough() && !r.Chance(1, 4) {
+			continue
+		}
 		for mode := 0; mode < 2; mode++ {
 			runVariant(e, r, kg, script, cfg, mode, true, ref)
 		}
@@ -171,6 +178,100 @@ func history(e *mavlh.Eng, r *gen.Rand) {
 			runVariant(e, r, kg, script, cfg, 2, true, ref)
 		}
 	}
+}
+
+// ---------------------------------------------------------------------------------------------
+// hunt: an update that is first *computed* as a pending update (and rolled back, or simply left pending) and
+// then applied for real at another block height.  With the height prefix the two trees share the root hash but
+// not the child keys; the process-global memTree keeps the node fields of the never-committed tree.
+// Each scenario is run twice in fresh stores: control (no earlier pending update) and test; every common
+// operation must give the same answer (the property: "... whatever other updates were computed, committed or
+// rolled back earlier in the process").  Predicate-only: these lines are not replayed by the Lean driver.
+
+type outcome struct{ op, st string }
+
+func huntScenario(e *mavlh.Eng, r *gen.Rand, cfg mavlh.Cfg, kg *mavlh.KeyGen, base [][]mavlh.KV, kvs, kvs2 []mavlh.KV,
+	h1, h2 int64, pendingKind int, test bool) []outcome {
+	e.New(cfg)
+	var res []outcome
+	var parent []byte
+	for i, b := range base {
+		root, st := e.Set(parent, int64(i+1), b)
+		if len(st) < 5 || st[:5] != "root " {
+			return nil
+		}
+		parent = root
+	}
+	if test {
+		switch pendingKind {
+		case 0: // computed, then rolled back
+			root, _ := e.MemSet(parent, h1, kvs)
+			e.Rollback(root)
+		case 1: // computed, left pending
+			e.MemSet(parent, h1, kvs)
+		case 2: // computed and committed (control for the control: must be harmless)
+			root, _ := e.MemSet(parent, h1, kvs)
+			e.Commit(root)
+		}
+	}
+	root, st := e.Set(parent, h2, kvs)
+	res = append(res, outcome{"Store.Set", st})
+	if len(st) < 5 || st[:5] != "root " {
+		return res
+	}
+	_, st = e.MemSet(root, h2+1, kvs2)
+	res = append(res, outcome{"Store.MemSet", st})
+	_, st = e.Set(root, h2+1, kvs2)
+	res = append(res, outcome{"Store.Set", st})
+	return res
+}
+
+func hunt(e *mavlh.Eng, r *gen.Rand) {
+	n := gen.Scale(40, 1500)
+	for i := 0; i < n; i++ {
+		cfg := mavlh.CfgFromInt(r.Intn(32))
+		if r.Chance(2, 3) {
+			cfg.MemTree = true
+		}
+		if r.Chance(1, 2) {
+			cfg.Prefix = true
+		}
+		kg := mavlh.NewKeyGen(r, []int{3, 10, 50}[r.Intn(3)])
+		var base [][]mavlh.KV
+		for j := r.Range(1, 3); j > 0; j-- {
+			base = append(base, kg.Batch(r.Range(1, 12)))
+		}
+		kvs := kg.Batch(r.Range(1, 6))
+		kvs2 := kg.Batch(r.Range(1, 6))
+		h2 := int64(len(base) + 1 + r.Intn(3))
+		h1 := h2 + int64(r.Range(1, 3))
+		if r.Chance(1, 6) {
+			h1 = h2
+		}
+		pk := r.Pick(3, 3, 1)
+		control := huntScenario(e, r, cfg, kg, base, kvs, kvs2, h1, h2, pk, false)
+		test := huntScenario(e, r, cfg, kg, base, kvs, kvs2, h1, h2, pk, true)
+		out.Stat("hunt_scenarios", 1)
+		out.Stat(fmt.Sprintf("hunt_cfg_memtree_%v_prefix_%v", cfg.MemTree, cfg.Prefix || cfg.Prune), 1)
+		kind := []string{"rolled-back", "left-pending", "committed"}[pk]
+		for j := range control {
+			if j >= len(test) {
+				break
+			}
+			if control[j].st == test[j].st {
+				continue
+			}
+			what := "root-differs"
+			if test[j].st == "panic" {
+				what = "panic"
+			}
+			out.Pred(fmt.Sprintf("C02|%s|%s-after-%s-update-of-same-content", test[j].op, what, kind),
+				fmt.Sprintf("cfg=%s h1=%d h2=%d base=%d batches control=%s test=%s", cfg.Bits(), h1, h2, len(base), control[j].st, test[j].st))
+			out.Stat("hunt_failures", 1)
+			break
+		}
+	}
+	out.Sample("hunt: set base; [mset P h1 kvs; rollback|keep|commit]; set P h2 kvs -> R; mset R ..; set R ..  (control vs test, same cfg)")
 }
 
 func main() {
@@ -182,7 +283,11 @@ func main() {
 		return
 	}
 	r := gen.New(gen.Seed())
-	n := gen.Scale(40, 800)
+	if os.Getenv("VERIF_C02_MODE") == "hunt" {
+		hunt(e, r)
+		return
+	}
+	n := gen.Scale(30, 300)
 	for i := 0; i < n; i++ {
 		history(e, r)
 	}
